@@ -283,7 +283,7 @@ def namesGo : Nat → Toks → List String → Except String ((List String) × T
     else throw "assert: ; to end port declaration"
 
 /-- `parse_port_declaration` -> one item per name -/
-def portDeclP (ts : Toks) : Except String ((List Item) × Toks) := do
+def portDeclP (attrs : Attrs) (ts : Toks) : Except String ((List Item) × Toks) := do
   let (t, ts) ← next ts
   match dirOf t with
   | none => throw "assert: direction keyword"
@@ -300,7 +300,7 @@ def portDeclP (ts : Toks) : Except String ((List Item) × Toks) := do
     let (n, ts) ← next ts
     if !validIdent n then throw "assert: port identifier" else
     let (names, ts) ← namesGo (ts.length + 1) ts [strip n]
-    pure (names.map (fun x => Item.portDecl d vt rng x), ts)
+    pure (names.map (fun x => Item.portDecl d vt rng x attrs), ts)
 
 /-- `parse_cable_declaration` (as repaired): the range and the attributes belong to every name of the list;
     a name may still bring its own brackets -/
@@ -406,7 +406,7 @@ def bodyGo : Nat → Toks → Attrs → List Item → Except String ((List Item)
       let (_, ts) ← next ts
       pure (acc, ts)
     else if (dirOf t).isSome then do
-      let (its, ts) ← portDeclP ts
+      let (its, ts) ← portDeclP pend ts
       bodyGo f ts [] (acc ++ its)
     else if t == "wire" || t == "reg" || t == "tri0" || t == "tri1" then do
       let (_, ts) ← next ts
@@ -455,7 +455,7 @@ def primBodyGo : Nat → Toks → List Item → Except String ((List Item) × To
       let ts ← skip (ts.length + 1) ts
       primBodyGo f ts acc
     else if (dirOf t).isSome then do
-      let (its, ts) ← portDeclP ts
+      let (its, ts) ← portDeclP [] ts
       primBodyGo f ts (acc ++ its)
     else do
       let (_, ts) ← next ts
